@@ -26,7 +26,15 @@ type Parser struct {
 	// to the parser: a package-level stack would leak operands from one parse into
 	// the next and be written by concurrent parses.
 	operandStack []core.Object
+
+	// depth counts the arrays and dictionaries currently being parsed
+	depth int
 }
+
+// maxNestingDepth bounds how deeply arrays and dictionaries may nest. The
+// parser recurses once per level, so without a bound a stream of opening
+// brackets exhausts the stack.
+const maxNestingDepth = 512
 
 // NewParser creates a new content stream parser for the given data.
 func NewParser(data []byte) *Parser {
@@ -424,6 +432,12 @@ func (p *Parser) parseArray() (core.Object, error) {
 	}
 	p.pos++ // skip '['
 
+	p.depth++
+	defer func() { p.depth-- }()
+	if p.depth > maxNestingDepth {
+		return nil, fmt.Errorf("arrays and dictionaries nested deeper than %d", maxNestingDepth)
+	}
+
 	var arr core.Array
 
 	for p.pos < len(p.data) {
@@ -455,6 +469,12 @@ func (p *Parser) parseDict() (core.Object, error) {
 		return nil, fmt.Errorf("dictionary must start with '<<'")
 	}
 	p.pos += 2 // skip '<<'
+
+	p.depth++
+	defer func() { p.depth-- }()
+	if p.depth > maxNestingDepth {
+		return nil, fmt.Errorf("arrays and dictionaries nested deeper than %d", maxNestingDepth)
+	}
 
 	dict := make(core.Dict)
 
